@@ -269,6 +269,22 @@ func runC11(p *core.Program, r *core.Report) {
 	nRet := 0
 	for _, ret := range core.Returns(enc) {
 		if core.IsNilConst(ret.Results[0]) {
+			if len(ret.Results) == 2 && core.IsNilConst(ret.Results[1]) {
+				// "no index, no error" is the answer for the empty token sequence and for nothing else
+				okEmpty := false
+				for _, g := range core.Guards(ret.Block()) {
+					rel, ok := core.AsRel(g)
+					if !ok {
+						continue
+					}
+					if x, isLen := core.LenOf(rel.X); isLen && x == ssa.Value(enc.Params[0]) {
+						if k, isC := core.ConstInt(rel.Y); isC && (rel.Op == token.EQL && k == 0 || rel.Op == token.LSS && k == 1 || rel.Op == token.LEQ && k == 0) {
+							okEmpty = true
+						}
+					}
+				}
+				r.Check(okEmpty, "R11.3", encName, "only the empty token sequence gets no index (and no error)", p.InstrPos(ret), "a non-empty sequence without an index cannot be reconstructed")
+			}
 			continue
 		}
 		nRet++
@@ -765,6 +781,91 @@ func checkAlternatingParity(p *core.Program, r *core.Report, dec *ssa.Function) 
 			decMap[par] = t
 		}
 	})
+	// the size clause needs the converse too: a sequence A S A … A must be classified as
+	// alternating, so every `return false` of the predicate has a reason that rules that out
+	for _, ret := range core.Returns(alt) {
+		if len(ret.Results) != 1 {
+			continue
+		}
+		c, isC := ret.Results[0].(*ssa.Const)
+		if !isC || c.Value == nil || c.Value.String() != "false" {
+			continue
+		}
+		accepted := func(g core.Guard) bool {
+			if rel, ok := core.AsRel(g); ok {
+				if rem, isRem := rel.X.(*ssa.BinOp); isRem && rem.Op == token.REM {
+					if _, isLen := core.LenOf(rem.X); isLen {
+						if m, isM := core.ConstInt(rem.Y); isM && m == 2 {
+							k, isK := core.ConstInt(rel.Y)
+							return isK && (rel.Op == token.NEQ && k == 1 || rel.Op == token.EQL && k == 0)
+						}
+					}
+					return false
+				}
+				if x, isLen := core.LenOf(rel.X); isLen {
+					k, isK := core.ConstInt(rel.Y)
+					if !isK {
+						return false
+					}
+					if _, isMap := x.Type().Underlying().(*types.Map); isMap {
+						return rel.Op == token.NEQ && k == 2
+					}
+					return rel.Op == token.LSS && k <= 3 || rel.Op == token.LEQ && k <= 2 || rel.Op == token.EQL && k == 0
+				}
+				if (isTokenTypeValue(rel.X) || isTokenTypeValue(rel.Y)) && rel.Op == token.NEQ {
+					return true
+				}
+				return false
+			}
+			if lk, isLk := g.Cond.(*ssa.Lookup); isLk && !g.Pos {
+				if mt, isMap := lk.X.Type().Underlying().(*types.Map); isMap && core.NamedOf(mt.Key()) == core.ModulePath+".TokenType" {
+					return true
+				}
+			}
+			return false
+		}
+		ok := false
+		// unreachable: x%2 is neither 0 nor 1
+		ne := map[ssa.Value]map[int64]bool{}
+		for _, g := range core.Guards(ret.Block()) {
+			if accepted(g) {
+				ok = true
+			}
+			if rel, isRel := core.AsRel(g); isRel && rel.Op == token.NEQ {
+				if rem, isRem := rel.X.(*ssa.BinOp); isRem && rem.Op == token.REM {
+					if m, isM := core.ConstInt(rem.Y); isM && m == 2 {
+						if k, isK := core.ConstInt(rel.Y); isK {
+							if ne[rem] == nil {
+								ne[rem] = map[int64]bool{}
+							}
+							ne[rem][k] = true
+						}
+					}
+				}
+			}
+		}
+		for _, ks := range ne {
+			if ks[0] && ks[1] {
+				ok = true
+			}
+		}
+		if !ok && len(ret.Block().Preds) > 0 {
+			ok = true
+			for _, pb := range ret.Block().Preds {
+				for si, sb := range pb.Succs {
+					if sb != ret.Block() {
+						continue
+					}
+					g, has := core.EdgeCond(pb, si)
+					if !has || !accepted(g) {
+						ok = false
+					}
+				}
+			}
+		}
+		r.Check(ok, "R11.3", core.FuncName(alt), "the alternation predicate says no only for a reason that rules out A S A … A (even or too short length, a type out of place, not both types)", p.InstrPos(ret),
+			"otherwise a strictly alternating sequence gets the two-bytes-per-token index instead of the documented one byte per token")
+	}
 	if len(encMap) != 2 || len(decMap) != 2 {
 		r.Unrecognised("R11.3", core.FuncName(dec), "alternating parity->type maps", p.Pos(dec.Pos()), fmt.Sprintf("encoder map %v, decoder map %v not both recognised", encMap, decMap))
 		return
